@@ -535,6 +535,12 @@ func (pf Producer[T]) GenerateParallel(
 						return zero, ErrIteratorSkip
 					}
 
+					// a failure (rather than the end of
+					// the sequence) aborts the whole group:
+					// ReadAll reports io.EOF as nil, so
+					// the observer below never sees it.
+					ft.WhenCall(!errors.Is(err, io.EOF), cancel)
+
 					return zero, io.EOF
 				}
 				return value, nil
